@@ -395,15 +395,42 @@ func (p *Program) externalModSet(sig *types.Signature, args []*SVal, invoke bool
 	return ms
 }
 
-func (p *Program) instrMods(ms *modSet, fn *ssa.Function, ins ssa.Instruction, depth int) {
+// rootAlloc: the Alloc a field/element address is derived from, if any.
+func rootAlloc(v ssa.Value) *ssa.Alloc {
+	for i := 0; i < 16; i++ {
+		switch x := v.(type) {
+		case *ssa.Alloc:
+			return x
+		case *ssa.FieldAddr:
+			v = x.X
+		case *ssa.IndexAddr:
+			if _, ok := x.X.Type().Underlying().(*types.Pointer); !ok {
+				return nil
+			}
+			v = x.X
+		default:
+			return nil
+		}
+	}
+	return nil
+}
+
+// instrMods adds what ins may write to ms. Writes to objects that the summarised code itself allocates
+// (freshAlloc) are left out: the code being summarised is the only one that can know anything about them,
+// so they are invisible in the pre-state of whoever uses the summary.
+func (p *Program) instrMods(ms *modSet, fn *ssa.Function, ins ssa.Instruction, depth int, freshAlloc func(*ssa.Alloc) bool) {
 	switch x := ins.(type) {
 	case *ssa.Store:
+		if a := rootAlloc(x.Addr); a != nil && freshAlloc(a) {
+			ms.names[allocHeap] = allocSort
+			return
+		}
 		p.addrNames(ms, x.Addr, x.Addr.Type().Underlying().(*types.Pointer).Elem())
 	case *ssa.MapUpdate:
 		p.mapNames(ms, x.Map.Type().Underlying().(*types.Map))
 	case *ssa.Alloc, *ssa.MakeSlice, *ssa.MakeMap, *ssa.MakeClosure, *ssa.MakeChan:
 		ms.names[allocHeap] = allocSort
-		if a, ok := x.(*ssa.Alloc); ok {
+		if a, ok := x.(*ssa.Alloc); ok && !freshAlloc(a) {
 			// zero-initialisation writes the object's heaps
 			et := a.Type().(*types.Pointer).Elem()
 			p.addTypeNames(ms, et, "C|"+typeKey(et), 0)
@@ -505,7 +532,7 @@ func (p *Program) funcModSetDepth(fn *ssa.Function, depth int) *modSet {
 	ms := newModSet()
 	for _, b := range fn.Blocks {
 		for _, ins := range b.Instrs {
-			p.instrMods(ms, fn, ins, depth)
+			p.instrMods(ms, fn, ins, depth, func(*ssa.Alloc) bool { return true })
 		}
 	}
 	for _, af := range fn.AnonFuncs {
@@ -525,7 +552,7 @@ func (p *Program) loopModSet(fn *ssa.Function, body map[*ssa.BasicBlock]bool) *m
 	sort.Slice(bs, func(i, j int) bool { return bs[i].Index < bs[j].Index })
 	for _, b := range bs {
 		for _, ins := range b.Instrs {
-			p.instrMods(ms, fn, ins, 0)
+			p.instrMods(ms, fn, ins, 0, func(a *ssa.Alloc) bool { return body[a.Block()] })
 		}
 	}
 	return ms
